@@ -66,6 +66,10 @@ func TestVerifC06Server(t *testing.T) {
 		if _, err := m.API.CreateField(ctx, index, "t", pilosa.OptFieldTypeTime("YMD")); err != nil {
 			t.Fatal(err)
 		}
+		if _, err := m.API.CreateField(ctx, index, "v", pilosa.OptFieldTypeInt(-100, 100)); err != nil {
+			t.Fatal(err)
+		}
+		m.API.Query(ctx, &pilosa.QueryRequest{Index: index, Query: "Set(1, v=5) Set(2, v=-7) Set(1048577, v=50)"})
 		for i := 0; i < 20; i++ {
 			m.API.Query(ctx, &pilosa.QueryRequest{Index: index, Query: fmt.Sprintf("Set(%d, f=%d) Set(%d, g=%d)", i*7, i%4, i*11, i%3)})
 		}
@@ -90,6 +94,8 @@ func TestVerifC06Server(t *testing.T) {
 	pqlSeeds := []string{
 		`Row(f=1)`, `Set(10, f=1)`, `Union(Row(f=1), Row(g=2))`, `TopN(f, n=2)`, `Row(f > 3)`, `Count(Intersect(Row(f=1), Row(g=1)))`,
 		`Set(1, t=2, 2017-01-02T03:04)`, `Row(t=2, from='2017-01-01T00:00', to='2018-01-01T00:00')`, `SetRowAttrs(f, 1, x="y", n=2)`,
+		`Row(v >< [1, 5])`, `Count(Row(v >< [-10, 10]))`, `Row(-3 < v <= 50)`, `Row(v != null)`, `Sum(Row(f=1), field=v)`, `Min(field=v)`, `Row(v == 5)`, `TopN(f, Row(g=1), n=3, ids=[0,1,2])`,
+		`Rows(f, column=7, limit=2)`, `MinRow(field=f)`, `MaxRow(Row(g=1), field=f)`, `Set(3, v=9)`, `ClearRow(g=2)`, `SetColumnAttrs(1, a="b", c=[1,2])`,
 		`GroupBy(Rows(f), Rows(g), limit=3)`, `Rows(f, previous=1, limit=2)`, `Store(Row(f=1), g=3)`, `Not(Row(f=1))`, `Shift(Row(f=1), n=2)`, `Options(Row(f=1), shards=[0,1])`,
 	}
 
@@ -197,6 +203,24 @@ func TestVerifC06Server(t *testing.T) {
 			case 6:
 				b = append(b, b...)
 				mk = "doubled"
+			}
+			if lb := bytes.IndexByte(b, '['); lb >= 0 && rng.Chance(1, 2) {
+				// arity of a list argument: drop items, empty the list, or add items
+				if rb := bytes.IndexByte(b[lb:], ']'); rb > 0 {
+					items := bytes.Split(b[lb+1:lb+rb], []byte(","))
+					var repl [][]byte
+					switch rng.Intn(4) {
+					case 0:
+					case 1:
+						repl = items[:1]
+					case 2:
+						repl = append(append([][]byte{}, items...), []byte(" 7"), []byte(" 8"))
+					case 3:
+						repl = [][]byte{[]byte(`"x"`), []byte("null")}
+					}
+					b = append(append(append([]byte{}, b[:lb+1]...), bytes.Join(repl, []byte(","))...), b[lb+rb:]...)
+					mk += "+list-arity"
+				}
 			}
 			sig := "query:" + mk
 			wit := map[string]interface{}{"sig": sig, "entry": "query", "text": string(b)}
